@@ -558,6 +558,7 @@ type qgen struct {
 	nextID  int
 	tsBase  int64
 	marks   []int64 // instants worth landing on: lease ends as they were before an extend, nack times, ...
+	forced  bool    // lock-step: prefer dequeues whose choice is forced (batch >= ready)
 }
 
 var routes = []string{"/r0", "/r1", "/r2"}
@@ -859,6 +860,9 @@ func (g *qgen) genOp() jop {
 		}
 		if r.chance(30) {
 			op.Target = pick(r, targets)
+		}
+		if g.forced && r.chance(85) {
+			op.Batch = pick(r, []int{100, 100, 100, 101, 60})
 		}
 		return op
 	case 3, 4, 5, 6:
